@@ -159,6 +159,7 @@ func (tf *TextField) DeleteCharRightOfCursor() vxfw.Command {
 		next.WriteString(cluster)
 	}
 	tf.Value = next.String()
+	tf.n = graphemeCountInString(tf.Value)
 	return vxfw.ConsumeAndRedraw()
 }
 
@@ -186,6 +187,7 @@ func (tf *TextField) DeleteCharLeftOfCursor() vxfw.Command {
 		next.WriteString(cluster)
 	}
 	tf.Value = next.String()
+	tf.n = graphemeCountInString(tf.Value)
 	tf.cursor -= 1
 	return vxfw.ConsumeAndRedraw()
 }
@@ -212,6 +214,7 @@ func (tf *TextField) DeleteCursorToEndOfLine() vxfw.Command {
 		next.WriteString(cluster)
 	}
 	tf.Value = next.String()
+	tf.n = graphemeCountInString(tf.Value)
 	return vxfw.ConsumeAndRedraw()
 }
 
